@@ -19,20 +19,24 @@ from ..report import Report
 from .c01 import FUNCS
 
 
-def base_spec(shared, hier, n=3):
+def base_spec(shared, hier, n=3, same_sub=False):
+    """same_sub: the two sub-circuits are identical (also their weights), so that they can be ONE CircuitTemplate object"""
     fp = FP()
     ops = {'o1': families.op_two_inputs(fp), 'li': families.op_leaky(fp)}
     pre = ['c0/', 'c1/'] if hier else ['']
     nodes, edges = {}, []
+    wts = [fp() for _ in range(4)]
     for p in pre:
+        if not same_sub:
+            wts = [fp() for _ in range(4)]
         for i in range(n):
             nodes[f"{p}a{i}"] = NodeSpec(['o1'], {}, template=('TA' if shared else None))
         nodes[f"{p}b0"] = NodeSpec(['li'], {}, template=('TB' if shared else None))
         nodes[f"{p}b1"] = NodeSpec(['li'], {}, template=('TB' if shared else None))
-        edges.append(EdgeSpec(f"{p}a0/o1/x", f"{p}a1/o1/u", fp()))
-        edges.append(EdgeSpec(f"{p}a1/o1/x", f"{p}a2/o1/w", fp()))
-        edges.append(EdgeSpec(f"{p}b0/li/x", f"{p}a0/o1/u", fp()))
-        edges.append(EdgeSpec(f"{p}a2/o1/x", f"{p}b1/li/u", fp()))
+        edges.append(EdgeSpec(f"{p}a0/o1/x", f"{p}a1/o1/u", wts[0]))
+        edges.append(EdgeSpec(f"{p}a1/o1/x", f"{p}a2/o1/w", wts[1]))
+        edges.append(EdgeSpec(f"{p}b0/li/x", f"{p}a0/o1/u", wts[2]))
+        edges.append(EdgeSpec(f"{p}a2/o1/x", f"{p}b1/li/u", wts[3]))
     return ModelSpec('m', ops, nodes, edges, note=f"shared templates={shared}, hierarchical={hier}"), fp
 
 
@@ -234,7 +238,7 @@ def job_fn(job):
     if job.get('derive'):
         return derive_job(job)
     rnd = random.Random(job['seed'])
-    spec, fp = base_spec(job['shared'], job['hier'])
+    spec, fp = base_spec(job['shared'], job['hier'], same_sub=job.get('same_sub', False))
     ops, exp, kw = gen_history(spec, fp, rnd, job['length'], job['hier'], job.get('force'))
     j = dict(job)
     j['spec'] = exp
@@ -250,7 +254,7 @@ def job_fn(job):
     import pyverif.tvjobs as T
     from ..spec import build_python as bp
     orig = T.build_python
-    T.build_python = lambda _exp: bp(spec)
+    T.build_python = lambda _exp: bp(spec, share_circuits=job.get('same_sub', False))
     try:
         r = T.tv_job(j)
     finally:
@@ -293,6 +297,11 @@ def run(tier='quick', seed=0, only=None, verbose=False):
                 jobs.append(dict(key=f"{force}:{seed}:{i}:shared={bool((i // 2 + 1) % 2)}:hier={hier}|vec={vec}",
                                  seed=seed * 1000 + 700 + i, shared=bool((i // 2 + 1) % 2), hier=hier, length=1 + i % 2,
                                  vectorize=vec, force=force, spec=base_spec(bool((i // 2 + 1) % 2), hier)[0]))
+    for i in range(2 if tier == 'quick' else 16):
+        for vec in (True, False):
+            jobs.append(dict(key=f"samesub:{seed}:{i}:shared={bool(i % 2)}|vec={vec}", seed=seed * 1000 + 300 + i,
+                             shared=bool(i % 2), hier=True, length=i % 3, vectorize=vec, same_sub=True,
+                             spec=base_spec(bool(i % 2), True, same_sub=True)[0]))
     for i in range(4 if tier == 'quick' else 40):
         for on in ('derived', 'base'):
             jobs.append(dict(key=f"derive:{seed}:{i}:on={on}|vec={bool(i % 2)}", seed=seed * 1000 + 500 + i, shared=bool(i % 3),
